@@ -678,6 +678,10 @@ func TestC02(t *testing.T) {
 		}
 		return c
 	}, checkC02Engine)
+	if t.Failed() {
+		return
+	}
+	runConcC02(t)
 }
 
 var _ = strings.Join
